@@ -122,7 +122,7 @@ def enc_message(hdr, payloads, sk=None):
         first, chain = enc_chain(payloads)
         total = 28 + len(chain)
         return enc_header(hdr['spi_i'], hdr['spi_r'], first, hdr.get('major', 2), hdr.get('minor', 0), hdr['xchg'], fl, hdr['mid'], total) + chain
-    inner_first, inner = enc_chain(sk['inner'])
+    inner_first, inner = sk['raw_inner'] if 'raw_inner' in sk else enc_chain(sk['inner'])     # raw_inner: (first payload type, chain octets) as given
     bs = 16
     padlen = (bs - (len(inner) + 1) % bs) % bs
     plain = inner + b'\0' * padlen + bytes([padlen])
